@@ -2,8 +2,8 @@
    Statements only; proofs live in Proc/Proofs*.v.  Model of psutil: Proc/Model.v (transcription of
    psutil/__init__.py and psutil/_pslinux.py); kernel, ghost incarnations and demanded answers: Proc/Spec.v.
 
-   Reading guide.  [h] is a history: kernel events (Spawn pid start ppid | Exit pid -> zombie | Reap pid |
-   ClockStep d) interleaved with psutil calls (Process(pid), is_running, ==, hash, every signal method and
+   Reading guide.  [h] is a history: kernel events (Spawn pid start ppid comm, any name | SpawnThread pid |
+   Exit pid -> zombie | Reap pid | ClockStep d) interleaved with psutil calls (Process(pid), is_running, ==, hash, every signal method and
    setter, ppid, create_time, boot_time, process_iter); [wf_hist h]: a PID is handed out only when free and two
    starts of one PID never carry the same start tick.  [run h] is the world after [h]; object [o] is the o-th
    Process object created in [h]; [g_inc w o] is the incarnation (process start) it was created for (ghost);
